@@ -133,7 +133,9 @@ pub fn run(args: &Args) {
                     let base = fp + y * line - 24 * line - 16;
                     (0..6).map(|k| base + k * (line / 5) + r.below(10) as usize).collect()
                 }
-                3 => vec![frame_len - 14 - r.below(20) as usize],               // last T-states of the frame
+                // last T-states of the frame: the OUT ends before the frame does, or its I/O cycle lies across the frame end
+                // (the write then belongs to the frame that ends or to the one that begins, depending on the T-state)
+                3 => vec![if r.chance(1, 2) { frame_len - 14 - r.below(20) as usize } else { frame_len - 1 - r.below(13) as usize }],
                 4 => (0..4).map(|k| fp - 24 * line - 40 + k * 20).collect(),     // around the first visible pixel
                 5 => {
                     // in horizontal retrace
@@ -149,7 +151,8 @@ pub fn run(args: &Args) {
                     v
                 }
             };
-            times.retain(|t| *t < frame_len - 13);
+            times.retain(|t| *t < frame_len - 13 || kind == 3);
+            let mut crossed = false;
             let mut writes = vec![];
             let mut lastt = emu.verif_frame_clocks();
             for t in times {
@@ -174,10 +177,21 @@ pub fn run(args: &Args) {
                 writes.push(json!([t0, c, port]));
                 lastt = emu.verif_frame_clocks();
                 if lastt < t0 {
-                    // the OUT crossed the frame end: it belongs to the next frame's picture as well;
-                    // not generated (times are kept 13 T before the end)
-                    unreachable!();
+                    // the OUT crossed the frame end: the frame is complete (the call that executed the OUT reported it); no
+                    // border pixel is as late as this write, and the next frame starts in the new colour whichever side of
+                    // the frame end the write fell on
+                    crossed = true;
+                    break;
                 }
+            }
+            if crossed {
+                // (the single-stepping call ended at a breakpoint stop; the completion of the frame is handed over by the next
+                // call, which executes nothing)
+                finish_frame(&mut emu);
+                out.ev(json!({"ev":"bframe","writes":writes,"rows":rows(&emu),"reported":emu.border_color() as u8,
+                              "startcolor":startcolor,"midload":-1,"crossed":true}));
+                startcolor = emu.border_color() as u8;
+                continue;
             }
             // now and then a snapshot is loaded in the middle of the frame, after the program's writes (a host does that
             // at a breakpoint stop): from the next frame on the whole border shows the snapshot's colour
